@@ -77,6 +77,11 @@ func (p *Program) ConstTableOf(obj types.Object) []int64 {
 			if len(x.Args) != 0 {
 				return
 			}
+			if lit, isLit := ast.Unparen(x.Fun).(*ast.FuncLit); isLit {
+				// var t = func() (t [256]byte) { ... }()
+				out = foldTableBody(info, lit.Type, lit.Body)
+				return
+			}
 			fn := p.funcOfUnlocked(Callee(info, x))
 			if fn == nil || fn.Decl.Body == nil {
 				return
@@ -112,22 +117,34 @@ type folder struct {
 // foldTableFunc interprets a parameterless function that builds and returns
 // an array of integers.
 func foldTableFunc(fn *Func) []int64 {
-	f := &folder{info: fn.Info(), env: map[types.Object]*foldVal{}}
 	sig := fn.Obj.Type().(*types.Signature)
 	if sig.Params().Len() != 0 || sig.Results().Len() != 1 {
 		return nil
 	}
+	return foldTableBody(fn.Info(), fn.Decl.Type, fn.Decl.Body)
+}
+
+// foldTableBody interprets the body of a parameterless function (declared or
+// literal) with one result.
+func foldTableBody(info *types.Info, ft *ast.FuncType, body *ast.BlockStmt) []int64 {
+	f := &folder{info: info, env: map[types.Object]*foldVal{}}
+	if ft.Params != nil && len(ft.Params.List) != 0 {
+		return nil
+	}
+	if ft.Results == nil || len(ft.Results.List) != 1 || len(ft.Results.List[0].Names) > 1 {
+		return nil
+	}
 	// named result
 	var named types.Object
-	if fn.Decl.Type.Results != nil {
-		for _, fl := range fn.Decl.Type.Results.List {
+	if ft.Results != nil {
+		for _, fl := range ft.Results.List {
 			for _, n := range fl.Names {
 				named = f.info.ObjectOf(n)
 				f.env[named] = f.zero(named.Type())
 			}
 		}
 	}
-	f.block(fn.Decl.Body.List)
+	f.block(body.List)
 	if f.fail {
 		return nil
 	}
@@ -494,4 +511,133 @@ func (f *folder) binop(op token.Token, l, r foldVal) foldVal {
 		return b(l.n != 0 || r.n != 0)
 	}
 	return foldVal{}
+}
+
+var fieldTableCache = map[string][]int64{}
+
+// ConstFieldTableOf returns, for a package-level array or slice of structs
+// initialised by a composite literal of constants, the table of one field
+// (missing elements and fields are zero); nil when the initialiser is not of
+// that form.
+func (p *Program) ConstFieldTableOf(obj types.Object, field string) []int64 {
+	v, ok := obj.(*types.Var)
+	if !ok || v.Pkg() == nil || v.Parent() != v.Pkg().Scope() {
+		return nil
+	}
+	key := v.Pkg().Path() + "." + v.Name() + "." + field
+	tableMu.Lock()
+	defer tableMu.Unlock()
+	if t, ok := fieldTableCache[key]; ok {
+		return t
+	}
+	fieldTableCache[key] = nil
+	pkg := p.Pkgs[v.Pkg().Path()]
+	if pkg == nil {
+		return nil
+	}
+	info := pkg.TypesInfo
+	var init ast.Expr
+	for _, f := range pkg.Syntax {
+		for _, d := range f.Decls {
+			gd, ok := d.(*ast.GenDecl)
+			if !ok || gd.Tok != token.VAR {
+				continue
+			}
+			for _, sp := range gd.Specs {
+				vs, ok := sp.(*ast.ValueSpec)
+				if !ok || len(vs.Values) != len(vs.Names) {
+					continue
+				}
+				for i, n := range vs.Names {
+					if info.Defs[n] == obj {
+						init = vs.Values[i]
+					}
+				}
+			}
+		}
+	}
+	lit, ok := ast.Unparen(init).(*ast.CompositeLit)
+	if init == nil || !ok {
+		return nil
+	}
+	var elem types.Type
+	n := int64(-1)
+	switch t := v.Type().Underlying().(type) {
+	case *types.Array:
+		elem, n = t.Elem(), t.Len()
+	case *types.Slice:
+		elem = t.Elem()
+	default:
+		return nil
+	}
+	st, ok := elem.Underlying().(*types.Struct)
+	if !ok {
+		return nil
+	}
+	fidx := -1
+	for i := 0; i < st.NumFields(); i++ {
+		if st.Field(i).Name() == field {
+			fidx = i
+		}
+	}
+	if fidx < 0 {
+		return nil
+	}
+	vals := map[int64]int64{}
+	idx, max := int64(0), int64(-1)
+	for _, el := range lit.Elts {
+		val := el
+		if kv, ok := el.(*ast.KeyValueExpr); ok {
+			k, ok := IntConst(info, kv.Key)
+			if !ok {
+				return nil
+			}
+			idx, val = k, kv.Value
+		}
+		cl, ok := ast.Unparen(val).(*ast.CompositeLit)
+		if !ok {
+			return nil
+		}
+		for j, fe := range cl.Elts {
+			fv := fe
+			match := j == fidx
+			if kv, ok := fe.(*ast.KeyValueExpr); ok {
+				id, isID := kv.Key.(*ast.Ident)
+				match = isID && id.Name == field
+				fv = kv.Value
+			}
+			if !match {
+				continue
+			}
+			k, ok := IntConst(info, fv)
+			if !ok {
+				if tv, has := info.Types[fv]; has && tv.Value != nil && tv.Value.Kind() == constant.Bool {
+					if constant.BoolVal(tv.Value) {
+						k = 1
+					}
+				} else {
+					return nil
+				}
+			}
+			vals[idx] = k
+		}
+		if idx > max {
+			max = idx
+		}
+		idx++
+	}
+	if n < 0 {
+		n = max + 1
+	}
+	if n > 1<<16 {
+		return nil
+	}
+	out := make([]int64, n)
+	for k, x := range vals {
+		if k >= 0 && k < n {
+			out[k] = x
+		}
+	}
+	fieldTableCache[key] = out
+	return out
 }
